@@ -128,6 +128,13 @@ def draw_linear_residual(
     subkey_nll, subkey_prr = random.split(key, 2)
     nll_smpl = sample_likelihood(likelihood, point_estimates, pos, key=subkey_nll)
     prr_inv_metric_smpl = random_like(key=subkey_prr, primals=p_liquid)
+    # `jax.random.normal` draws complex numbers with variance 1/2 for the real
+    # and for the imaginary part; the standard prior 1/2 p^dagger p has unit
+    # variance per real degree of freedom
+    prr_inv_metric_smpl = tree_map(
+        lambda x: x * jnp.sqrt(2.0) if jnp.iscomplexobj(x) else x,
+        prr_inv_metric_smpl,
+    )
     # One may transform any metric sample to a sample of the inverse
     # metric by simply applying the inverse metric to it
     prr_smpl = prr_inv_metric_smpl
